@@ -241,11 +241,12 @@ class Emitter:
                 # observed rendering: a field declared as the bare TypeVar stays {} (Any) in the schema of a specialisation,
                 # a TypeVar nested in the field type (List[T], Optional[T]) is replaced by the type argument
                 fty = "TAny" if f["type"][0] == "tvar" else self.ty(G.subst(f["type"], tenv))
+                fser = "None"
                 if (f.get("ser") or ("",))[0] == "fn":
-                    fty = self.ty(f["ser"][1])      # the schema describes the return annotation of the serialize function
+                    fser = f"(Some {self.ty(f['ser'][1])})"     # the schema describes the return annotation of the function
                 fs.append(f"(mkF {coq_str(f['name'])} {coq_str(key)} {fty} "
                           f"{cbool(f['default'] is not None)} {cbool(f['init'])} {ov[f.get('nt_override')]} "
-                          f"{cbool(f['default'] is not None and f['default'][1] == 'None')})")
+                          f"{cbool(f['default'] is not None and f['default'][1] == 'None')} {fser})")
             cfg = d.get("cfg") or {}
             return f"(mkC {coq_str(cid)} {coq_str(d['clsname'])} {cl(fs)} {cbool(cfg.get('nt_as_dict'))} {cbool(cfg.get('omit_none'))})"
         for d in self.tbl.decls:
@@ -254,14 +255,14 @@ class Emitter:
             if d["kind"] == "data":
                 classes.append(data_entry(d, d["name"], {}))
             elif d["kind"] == "nt":
-                fs = [f"(mkF {coq_str(f['name'])} {coq_str(f['name'])} {self.ty(f['type'])} {cbool(f['default'] is not None)} true None false)"
+                fs = [f"(mkF {coq_str(f['name'])} {coq_str(f['name'])} {self.ty(f['type'])} {cbool(f['default'] is not None)} true None false None)"
                       for f in d["fields"]]
                 nts.append(f"(mkC {coq_str(d['name'])} {coq_str(d['clsname'])} {cl(fs)} false false)")
             elif d["kind"] == "td":
                 fs = []
                 for f in d["fields"]:
                     required = (d["total"] and f["marker"] != "NotRequired") or f["marker"] == "Required"
-                    fs.append(f"(mkF {coq_str(f['name'])} {coq_str(f['name'])} {self.ty(f['type'])} {cbool(not required)} true None false)")
+                    fs.append(f"(mkF {coq_str(f['name'])} {coq_str(f['name'])} {self.ty(f['type'])} {cbool(not required)} true None false None)")
                 typeds.append(f"(mkC {coq_str(d['name'])} {coq_str(d['clsname'])} {cl(fs)} false false)")
             elif d["kind"] == "enum":
                 vals = [json_term(m.value) for m in self.ns[d["name"]]]
@@ -376,7 +377,10 @@ class Emitter:
             out = []
             for f in d["fields"]:
                 if (f.get("ser") or ("",))[0] == "fn":      # the member is what the user's serialize function returns
-                    out.append(f"({coq_str(f['name'])}, {self.value(f['ser'][1], eval(G.val_src(f['ser'][2]), self.ns))})")
+                    if getattr(v, f["name"]) is None:
+                        out.append(f"({coq_str(f['name'])}, VNone)")        # None is not passed to the function
+                    else:
+                        out.append(f"({coq_str(f['name'])}, {self.value(f['ser'][1], eval(G.val_src(f['ser'][2]), self.ns))})")
                 else:
                     out.append(f"({coq_str(f['name'])}, {self.value(f['type'], getattr(v, f['name']))})")
             return "(VObj " + cl(out) + ")"
